@@ -120,7 +120,10 @@ TARGETS = {
             ("serialization.py", "<module>"), ("nn/qmodule.py", "<module>")],
     "C11": [("calibrate.py", "<module>"), ("calibrate.py", "Calibration.calibrate_input"), ("calibrate.py", "Calibration.calibrate_output"), ("calibrate.py", "Calibration.__torch_function__"),
             ("tensor/qtensor_func.py", "<module>"), ("tensor/quantizers/symmetric.py", "<module>"),
-            ("tensor/quantizers/affine.py", "<module>"), ("nn/qmodule.py", "QModuleMixin.qforward")],
+            ("tensor/quantizers/affine.py", "<module>"), ("nn/qmodule.py", "QModuleMixin.qforward"),
+            # the backward of QTensorLinear multiplies float gradients with quantized activations: those products are dispatched here
+            ("tensor/qbytes_ops.py", "<module>"), ("tensor/qbytes_ops.py", "mm"), ("tensor/qbytes_ops.py", "bmm"), ("tensor/qbytes_ops.py", "transpose2d"),
+            ("tensor/qtensor.py", "qfallback"), ("tensor/qbytes.py", "QBytesTensor.__torch_dispatch__")],
     "C12": CALIB_GLUE,
     "C13": CALIB_GLUE,
     "C14": NUM_SKELETONS + QUANTIZER_SKELETONS + OPT_ABSTRACT,
